@@ -211,6 +211,64 @@ def getTrace (g : Geo) (cfg : Cfg) (st : St) (rid : Nat) (index a b : Int) : St 
            .ok { arr := .a1 (b - a) fun c => f (il % g.b0) (xl % g.b1) (a - minZ + c), fetches := o.fetches })
         | _ => (st', .error .other)
 
+/-- traces stacked one by one through `getTrace` (the diagonals, read.py:492-620): the state threads through, so a chunk
+already in the reader's LRU is not fetched again -/
+def stackTraces (g : Geo) (cfg : Cfg) (st : St) (rid : Nat) (idxs : List Int) (a b : Int) : St × R :=
+  let rec go (st : St) (rest : List Int) (rows : List (Nat → Nat)) (fs : List (Nat × Nat)) :
+      St × Except Err (List (Nat → Nat) × List (Nat × Nat)) :=
+    match rest with
+    | [] => (st, .ok (rows.reverse, fs))
+    | t :: ts =>
+      match getTrace g cfg st rid t a b with
+      | (st', .error e) => (st', .error e)
+      | (st', .ok o) =>
+        match o.arr with
+        | .a1 _ f => go st' ts (f :: rows) (fs ++ o.fetches)
+        | _ => (st', .error .other)
+  match go st idxs [] [] with
+  | (st', .error e) => (st', .error e)
+  | (st', .ok (rows, fs)) =>
+    (st', .ok { arr := .a2 rows.length (b - a).toNat fun d c => (rows.getD d (fun _ => 0)) c, fetches := fs })
+
+/-- range and window arguments of a diagonal read, as `Reader.readCorrelatedDiagonal` checks them -/
+def diagArgs (g : Geo) (maxLen : Int) (rng win : Option (Int × Int)) : Except Err ((Int × Int) × (Int × Int)) :=
+  let r : Except Err (Int × Int) :=
+    match rng with
+    | none => .ok (0, maxLen)
+    | some (lo, hi) =>
+      if !(0 ≤ lo && lo < maxLen) then .error .index
+      else if !(0 < hi && hi ≤ maxLen) then .error .index
+      else if !(lo < hi) then .error .index
+      else .ok (lo, hi)
+  match r with
+  | .error e => .error e
+  | .ok (lo, hi) =>
+    match win with
+    | none => .ok ((lo, hi), (0, g.n2))
+    | some (s, e) => if Reader.windowOk g s e then .ok ((lo, hi), (s, e)) else .error .index
+
+def readCorrelatedDiagonal (g : Geo) (cfg : Cfg) (st : St) (rid : Nat) (cd : Int) (rng win : Option (Int × Int)) : St × R :=
+  if g.is2d then (st, .error .dim) else
+  if !(-(g.n1 : Int) < cd && cd < g.n0) then (st, .error .index) else
+  match diagArgs g (Reader.cdLen cd g.n0 g.n1) rng win with
+  | .error e => (st, .error e)
+  | .ok ((lo, hi), (s, e)) =>
+    let ds : List Int := (List.range (hi - lo).toNat).map fun (d : Nat) => lo + (d : Int)
+    let idxs := ds.map fun d => if cd ≥ 0 then (d + cd) * g.n1 + d else d * g.n1 + d - cd
+    stackTraces g cfg st rid idxs s e
+
+def readAnticorrelatedDiagonal (g : Geo) (cfg : Cfg) (st : St) (rid : Nat) (ad : Int) (rng win : Option (Int × Int)) : St × R :=
+  if g.is2d then (st, .error .dim) else
+  if !(0 ≤ ad && ad < (g.n0 : Int) + g.n1 - 1) then (st, .error .index) else
+  match diagArgs g (Reader.adLen ad g.n0 g.n1) rng win with
+  | .error e => (st, .error e)
+  | .ok ((lo, hi), (s, e)) =>
+    let ds : List Int := (List.range (hi - lo).toNat).map fun (d : Nat) => lo + (d : Int)
+    let idxs := ds.map fun d =>
+      if ad < g.n1 then ad + d * ((g.n1 : Int) - 1)
+      else (ad - g.n1 + 1 + d) * g.n1 + ((g.n1 : Int) - d - 1)
+    stackTraces g cfg st rid idxs s e
+
 /-- the read calls of a history -/
 inductive Op where
   | il (k : Int) | xl (k : Int) | zs (k : Int)
@@ -218,6 +276,8 @@ inductive Op where
   | vol
   | subp (t0 t1 z0 z1 : Int)
   | tr (t a b : Int)
+  | cd (c : Int) (rng win : Option (Int × Int))
+  | ad (c : Int) (rng win : Option (Int × Int))
   | close                      -- `SgzReader.close()`: clears the class-level slots; the reader's own LRU goes with it
 deriving Repr
 
@@ -230,6 +290,8 @@ def pure (g : Geo) : Op → R
   | .vol => Reader.readVolume g
   | .subp a b c d => Reader.readSubplane g false a b c d
   | .tr t a b => Reader.getTrace g t a b
+  | .cd c rng win => Reader.readCorrelatedDiagonal g c rng win
+  | .ad c rng win => Reader.readAnticorrelatedDiagonal g c rng win
   | .close => .error .other
 
 def step (g : Geo) (cfg : Cfg) (st : St) (rid : Nat) : Op → St × R
@@ -240,6 +302,8 @@ def step (g : Geo) (cfg : Cfg) (st : St) (rid : Nat) : Op → St × R
   | .vol => readSubvolume g cfg st rid false true 0 g.n0 0 g.n1 0 g.n2
   | .subp a b c d => readSubplane g cfg st rid false a b c d
   | .tr t a b => getTrace g cfg st rid t a b
+  | .cd c rng win => readCorrelatedDiagonal g cfg st rid c rng win
+  | .ad c rng win => readAnticorrelatedDiagonal g cfg st rid c rng win
   | .close => ({ slots := [], lru := st.lru.filter (fun e => e.rid != rid) }, .error .other)
 
 /-- run a history; the results of all calls, in order -/
